@@ -810,9 +810,19 @@ func TestAccuracyPartition(t *testing.T) {
 	for n := 1; n <= 8; n++ {
 		p, tg := newRef([]int{n}), newRef([]int{n})
 		match := 0
+		// "arbitrary label values": small integers, and - in every second data set - labels that are not numbers at all
+		// (a NaN equals nothing, itself included) or differ by less than anything a label could mean but more than the
+		// library's tolerance
+		odd := []float64{math.NaN(), 1e-200, -1e-200, 0.5}
 		for i := 0; i < n; i++ {
 			p.Data[i] = float64(rng.Intn(3))
 			tg.Data[i] = float64(rng.Intn(3))
+			if n%2 == 0 && rng.Intn(3) == 0 {
+				p.Data[i] = odd[rng.Intn(len(odd))]
+			}
+			if n%2 == 0 && rng.Intn(3) == 0 {
+				tg.Data[i] = odd[rng.Intn(len(odd))]
+			}
 			if p.Data[i] == tg.Data[i] {
 				match++
 			}
